@@ -921,6 +921,9 @@ class vPeriod(TimeBase):
             # date mixed with datetime, floating mixed with zoned, or out of range
             raise ValueError(f"Start and end of a period do not fit together: {e}") from e
 
+        if not isinstance(start, datetime):
+            # a period consists of date-times (RFC 5545, 3.3.9)
+            raise ValueError('Start value of a period MUST be a datetime, not a date')
         self.params = Parameters({'value': 'PERIOD'})
         # set the timezone identifier
         # does not support different timezones for start and end
